@@ -2,6 +2,7 @@ package variants
 
 import (
 	"math"
+	"strconv"
 
 	"github.com/pip-services3-gox/pip-services3-commons-gox/errors"
 )
@@ -469,9 +470,15 @@ func (c *AbstractVariantOperations) Lsh(
 	// Performs operation.
 	switch value1.Type() {
 	case Integer:
+		if value2.AsInteger() < 0 || value2.AsInteger() >= strconv.IntSize {
+			return nil, errors.NewBadRequestError("", "SHIFT_OUT_OF_RANGE", "Shift count is out of range in operation '<<'")
+		}
 		result.SetAsInteger(value1.AsInteger() << value2.AsInteger())
 		return result, nil
 	case Long:
+		if value2.AsInteger() < 0 || value2.AsInteger() >= 64 {
+			return nil, errors.NewBadRequestError("", "SHIFT_OUT_OF_RANGE", "Shift count is out of range in operation '<<'")
+		}
 		result.SetAsLong(value1.AsLong() << value2.AsInteger())
 		return result, nil
 	}
@@ -506,9 +513,15 @@ func (c *AbstractVariantOperations) Rsh(
 	// Performs operation.
 	switch value1.Type() {
 	case Integer:
+		if value2.AsInteger() < 0 || value2.AsInteger() >= strconv.IntSize {
+			return nil, errors.NewBadRequestError("", "SHIFT_OUT_OF_RANGE", "Shift count is out of range in operation '>>'")
+		}
 		result.SetAsInteger(value1.AsInteger() >> value2.AsInteger())
 		return result, nil
 	case Long:
+		if value2.AsInteger() < 0 || value2.AsInteger() >= 64 {
+			return nil, errors.NewBadRequestError("", "SHIFT_OUT_OF_RANGE", "Shift count is out of range in operation '>>'")
+		}
 		result.SetAsLong(value1.AsLong() >> value2.AsInteger())
 		return result, nil
 	}
